@@ -16,7 +16,7 @@ Flat(q) == IF q = <<>> THEN <<>> ELSE Head(q) \o Flat(Tail(q))
 ToSeq(S) == IF S = {} THEN <<>> ELSE LET RECURSIVE F(_) F(T) == IF T = {} THEN <<>> ELSE LET x == CHOOSE y \in T : TRUE IN <<x>> \o F(T \ {x}) IN F(S)
 Emit == LET q == ToSeq(s)  ex == ExpectedOf(s)  ps == ToSeq(DOMAIN ex)  un == ToSeq(MustBeUnchanged(s)) IN
         PrintT(ToJson([plot |-> plot, argv |-> Flat([k \in DOMAIN q |-> Tokens(q[k])]), flags |-> [k \in DOMAIN q |-> q[k].flag],
-                       expected |-> [k \in DOMAIN ps |-> <<ps[k], ex[ps[k]]>>], unchanged |-> un]))
+                       expected |-> [k \in DOMAIN ps |-> <<ps[k], ex[ps[k]]>>] \o <<<<"crop", CropOf(s)>>>>, unchanged |-> un]))
 Evaluate == phase = "case" /\ phase' = "emitted" /\ UNCHANGED <<s, plot>> /\ Emit
 Next == Evaluate
 Spec == Init /\ [][Next]_vars
